@@ -136,6 +136,12 @@ def _mismatch(expected: list[Any], got: list[Any]) -> int | None:
 
 
 def run_stream(ctx: Any, kind: str, items: list[tuple[str, bytes, Any]], chunks: list[bytes], via: str = "direct", loop: Any = None) -> bool:
+    """Guarded _run_stream: a harness failure for one stream is counted and skipped."""
+    res = g.guarded(ctx, "run_stream " + kind, _run_stream, ctx, kind, items, chunks, via, loop)
+    return True if res is None else res
+
+
+def _run_stream(ctx: Any, kind: str, items: list[tuple[str, bytes, Any]], chunks: list[bytes], via: str = "direct", loop: Any = None) -> bool:
     """items: (item kind, octets, isolated frame or None). Returns True if nothing was flagged."""
     ctx.ev()
     ctx.count("tcp_streams_run")
@@ -549,10 +555,19 @@ SESSION_PHASES = ("unconnected", "awaiting-session-response", "awaiting-authenti
 GROUP_PHASES = ("before-timer-sync", "timer-synchronised", "timekeeper-after-timeout")
 
 
+def _small_valid(rng: Any, pools: Pools) -> bytes:
+    for _ in range(8):
+        inner = rng.choice(pools.valid)[0]
+        if len(inner) <= 2000:
+            return inner
+    return bytes.fromhex("06100421000a04010000")
+
+
 def _inner_frames(rng: Any, pools: Pools) -> bytes:
+    """What goes inside a wrapper: capped so that the wrapper (38 octets more) stays far below 65535 octets."""
     r = rng.random()
     if r < 0.55:
-        return rng.choice(pools.valid)[0]
+        return _small_valid(rng, pools)
     if r < 0.7:
         return rng.choice(pools.bad_cnp)
     if r < 0.8:
@@ -578,7 +593,7 @@ def _session_items(rng: Any, pools: Pools, n: int, key: bytes, sid: int, serial:
             out.append(("wrapper-random", g.frame_bytes(g.gen_body(SecureWrapper, rng))))
         elif k == 6:
             seq[0] += 1
-            nested = ref.wrap(key, sid, seq[0] + 1, serial, b"\x00\x00", rng.choice(pools.valid)[0])
+            nested = ref.wrap(key, sid, seq[0] + 1, serial, b"\x00\x00", _small_valid(rng, pools))
             out.append(("wrapper-nested-or-forbidden", ref.wrap(key, sid, seq[0], serial, b"\x00\x00", rng.choice((nested, g.header(0x0740, 6), g.header(0x0743, 8) + b"\x00\x00")))))
         elif k == 7:
             pub = server.public if server is not None and rng.random() < 0.5 else rng.randbytes(32)
@@ -792,7 +807,7 @@ def secure_group_history(ctx: Any, rng: Any, pools: Pools, index: int) -> None:
             elif k == 6:
                 kind, raw = "wrapper-forged", peer.wrapped(_inner_frames(rng, pools), t, tag, key=rng.choice((rng.randbytes(16), key)), session_id=rng.choice((0, 1, 0xFFFF)))
             elif k == 7:
-                nested = peer.wrapped(rng.choice(pools.valid)[0], t, tag)
+                nested = peer.wrapped(_small_valid(rng, pools), t, tag)
                 kind, raw = "wrapper-nested-or-forbidden", peer.wrapped(rng.choice((nested, g.header(0x0740, 6), peer.timer_notify(t, tag))), t, tag)
             elif k == 8:
                 kind, raw = "wrapper-random", g.frame_bytes(g.gen_body(SecureWrapper, rng))
@@ -871,7 +886,7 @@ def secure_part(ctx: Any, rng: Any, pools: Pools) -> None:
     for kind, n in (("session", ctx.scale(160, 4000)), ("group", ctx.scale(120, 3000))):
         for i in range(n):
             if ctx.mine(i):
-                _one_secure_history(ctx, pools, kind, i)
+                g.guarded(ctx, "secure " + kind + " history", _one_secure_history, ctx, pools, kind, i)
 
 
 def run(ctx: Any) -> None:
@@ -886,13 +901,20 @@ def run(ctx: Any) -> None:
                 "secure_session_chunks_fed", "secure_session_handshakes_completed", "secure_session_frames_forwarded_to_callbacks",
                 "secure_group_datagrams_fed", "secure_group_synchronised", "secure_group_frames_forwarded_to_callbacks")
     rng = ctx.rng
-    pools = Pools(ctx, rng)
+    pools = g.guarded(ctx, "pools", Pools, ctx, rng)
+    if pools is None:
+        ctx.inconclusive(f"frame pools could not be built: {ctx.extra.get('harness_errors')}")
+        return
     if not pools.tiny or not pools.bad_cnp or not pools.unreadable:
         ctx.inconclusive("frame pools incomplete")
         return
-    tcp_part(ctx, rng, pools)
-    udp_part(ctx, rng, pools)
-    secure_part(ctx, rng, pools)
+    for name, part in (("tcp", tcp_part), ("udp", udp_part), ("secure", secure_part)):
+        n_before = ctx.counters.get("harness_case_skipped", 0)
+        g.guarded(ctx, name + " part", part, ctx, rng, pools)
+        if ctx.extra.get("harness_errors") and any(e.startswith(name + " part") for e in ctx.extra["harness_errors"]):
+            ctx.inconclusive(f"harness error aborted the {name} part: {ctx.extra['harness_errors'][-1][:200]}")
+        del n_before
+    g.harness_verdict(ctx)
     ctx.exhaustive = True
     ctx.extra["exhaustive_part"] = (
         "every boundary set of each short TCP stream (<= 14 octets quick / 16 thorough) and every subset of the selected cut points "
